@@ -9,7 +9,8 @@ import subprocess
 import sys
 
 V = os.path.dirname(os.path.dirname(os.path.abspath(__file__)))
-OVERRIDE_CHECK = {'C17-1': ['C17', 'C06'], 'C12-7': ['C12', 'C14']}      # seeds that are (also) caught by another property's check
+# seeds whose defect is the subject of another property's check (the check named here is the one that is run)
+OVERRIDE_CHECK = {'C02-10': 'C11'}
 # seeds that stopped being valid seeds when a genuine defect was repaired in /repo (kept for the record, with what happened)
 OBSOLETE = {
     'C07-2': 'after the F3 repair (459ec04) 8 pinned tests fail with this change: it no longer satisfies "passes the existing tests"; the C07 check exits 1 on it as well',
@@ -25,7 +26,10 @@ OBSOLETE = {
 def evaluate(seed):
     d = os.path.join(V, 'seeded', seed)
     pid = seed.split('-')[0]
-    out = subprocess.run([os.path.join(V, 'tools', 'seed_eval.sh'), seed], capture_output=True, text=True, timeout=4000).stdout
+    env = dict(os.environ)
+    if seed in OVERRIDE_CHECK:
+        env['CHECK_ID'] = OVERRIDE_CHECK[seed]
+    out = subprocess.run([os.path.join(V, 'tools', 'seed_eval.sh'), seed], capture_output=True, text=True, timeout=4000, env=env).stdout
     m1 = re.search(r'demo clean exit=(\d+)\s+patched exit=(\d+)\s+tests: (.*)', out)
     m2 = re.search(r'check (\w+) (\w+) exit=(\d+) ; (\d+) VIOLATION', out)
     ce = re.findall(r'counterexample \[(.*?)\] (.*?): \{', out)
@@ -47,7 +51,7 @@ def evaluate(seed):
             'check': m2.group(1) if m2 else pid, 'tier': m2.group(2) if m2 else 'quick',
             'exit': int(m2.group(3)) if m2 else None, 'violation_lines': int(m2.group(4)) if m2 else None,
             'first_counterexamples': [f'[{a}] {b}' for a, b in ce[:3]],
-            'how': f'PYIKEV2_REPO=<patched scratch worktree> run.py {pid} --tier quick (evidence redirected, /repo untouched)',
+            'how': f'PYIKEV2_REPO=<patched scratch worktree> run.py {OVERRIDE_CHECK.get(seed, pid)} --tier quick (evidence redirected, /repo untouched)',
         },
         'raw': out[-1500:],
     }
